@@ -98,10 +98,7 @@ func VerifC04Three() {
 // extracted messages (count, order, ID, serial, body) do not depend on the cuts and each message is
 // delivered by the read that brings its closing delimiter.
 func VerifC04Cuts() {
-	maxFrames, maxBody, ksp := 2, 2, 1
-	if vrt_Tier() > 0 {
-		maxFrames, maxBody, ksp = 2, 3, 1 // three frames: VerifC04Three
-	}
+	maxFrames, ksp := 2, 1 // three frames: VerifC04Three
 	m := 1 + vrt_Choose("frames", maxFrames)
 	var frames []*vFrame
 	var stream []byte
